@@ -10,7 +10,7 @@ for d in sorted(glob.glob('/verif/seeded/*')):
     if os.path.exists(rp):
         lines = [l.strip() for l in open(rp) if l.strip()]
         last = lines[-1]
-        mm = re.search(r'(CAUGHT|MISSED) \S+ by (\./check \S+ --tier \S+)(?:: key: (.*))?', last)
+        mm = re.search(r'(CAUGHT|MISSED) \S+ by (\./check \S+ --tier \w+)(?:: key: (.*))?', last)
         if mm:
             res = '%s by `%s`%s' % (mm.group(1).lower(), mm.group(2), (' (`%s`)' % mm.group(3)) if mm.group(3) else '')
         hist = [l for l in lines if 'MISSED' in l]
